@@ -243,13 +243,21 @@ func (m *UDPMuxDefault) RemoveConnByUfrag(ufrag string) {
 		return
 	}
 
+	// A removed connection must not receive or bind new addresses anymore: close it
+	// first, so that a racing write cannot register an address after the cleanup below.
+	for _, c := range removedConns {
+		_ = c.Close()
+	}
+
 	m.addressMapMu.Lock()
 	defer m.addressMapMu.Unlock()
 
 	for _, c := range removedConns {
 		addresses := c.getAddresses()
 		for _, addr := range addresses {
-			delete(m.addressMap, addr)
+			if m.addressMap[addr] == c {
+				delete(m.addressMap, addr)
+			}
 		}
 	}
 }
@@ -490,6 +498,10 @@ func (m *UDPMuxDefault) registerConnForAddress(conn *udpMuxedConn, addr netip.Ad
 
 	m.addressMapMu.Lock()
 	defer m.addressMapMu.Unlock()
+
+	if conn.isClosed() {
+		return
+	}
 
 	existing, ok := m.addressMap[addr]
 	if ok {
